@@ -356,7 +356,10 @@ def rescale(img, scale, shape=None, mask=None, order=3, mode='nearest',
         out = map_coordinates(img, [yy, xx], order=order, mode=mode)
 
     if unitary:
-        out *= np.sum(img)/np.sum(out)
+        # (an image without any signal has nothing to conserve: 0/0)
+        total = np.sum(out)
+        if total != 0:
+            out *= np.sum(img)/total
 
     out *= mask
 
